@@ -143,6 +143,7 @@ func c08(p *core.Program, r *core.Report) {
 	distinctStorageRule(p, r, "min-max-distinct-storage")
 	cornerNotCoordinateRule(p, r, "corner-not-a-coordinate")
 	boundsNotMemoisedRule(p, r, "bounds-not-memoised")
+	collectionBoundsThroughExtendRule(p, r, "collection-bounds-through-extend")
 	foldWholeGeometryRule(p, r, "fold-whole-geometry")
 	footprintRule(p, r, "coordinate-coverage", [][2]string{{"", "(*Bounds).extendFlatCoords"}})
 
